@@ -64,25 +64,7 @@ func runC11(c *Ctx) {
 	ns := func(f string) *types.Var { return c.field("blockntfns", "newSubscription", f) }
 	smM := func(m string) *types.Func { return c.method("blockntfns", "SubscriptionManager", m) }
 
-	c.rule("C11.R1", "SubscriptionManager.subscribers is owned by the handler goroutine: it is touched only by the three handler helpers (called only from subscriptionHandler), by the constructor, and by Stop after it joined the handler", func() {
-		c.whoMay("access to SubscriptionManager.subscribers", accessOf(sm("subscribers")), []string{fnHandleNew, fnHandleCan, fnNotifyAll, "blockntfns.NewSubscriptionManager", fnSMStop}, 5)
-		c.whoMay("calls of handleNewSubscription/handleCancelSubscription/notifySubscribers", callTo(smM("handleNewSubscription"), smM("handleCancelSubscription"), smM("notifySubscribers")), []string{fnSubHandler}, 3)
-		c.whoMay("go subscriptionHandler", func(in ssa.Instruction) bool {
-			_, isGo := in.(*ssa.Go)
-			return isGo && callTo(smM("subscriptionHandler"))(in)
-		}, []string{"(*blockntfns.SubscriptionManager).Start"}, 1)
-		c.whoMay("calls of subscriptionHandler", callTo(smM("subscriptionHandler")), []string{"(*blockntfns.SubscriptionManager).Start"}, 1)
-		stop := c.fn(fnSMStop)
-		wait := c.method("sync", "WaitGroup", "Wait")
-		mwait := withArg(callTo(wait), 0, fieldAddrOf(sm("wg")))
-		c.mustPrecede(stop, mwait, "m.wg.Wait()", accessOf(sm("subscribers")), "access to m.subscribers", 1)
-		c.mustPrecede(stop, closes(loadsField(sm("quit"))), "close(m.quit)", mwait, "m.wg.Wait()", 1)
-		// Start is once-only
-		st := c.fn("(*blockntfns.SubscriptionManager).Start")
-		add := c.funcObj("sync/atomic", "AddInt32")
-		g := equalIs("atomic.AddInt32(&m.started,1) vs 1", find(st, binops(eqOps, valIsCallTo(add), constIntIs(1))), true)
-		c.guarded(st, g, 1, "go subscriptionHandler", find(st, func(in ssa.Instruction) bool { _, ok := in.(*ssa.Go); return ok }), 1, gDominate)
-	})
+	c.rule("C11.R1", registryOwnerDoc, func() { c.registryOwner() })
 
 	c.rule("C11.O1", backlogDoc, func() { c.backlogThenRegister() })
 
@@ -373,4 +355,29 @@ func (c *Ctx) backlogThenRegister() {
 		}
 	}
 	c.verdict(okRep, c.nm(h)+" | one reply per registration, carrying handleNewSubscription's result", c.P.Pos(h.Pos()), "msg.errChan <- m.handleNewSubscription(msg)", "the registration reply is missing, duplicated or not the handler's result", c.ats(reps)...)
+}
+
+const registryOwnerDoc = "SubscriptionManager.subscribers is owned by the handler goroutine: it is touched only by the three handler helpers (called only from subscriptionHandler), by the constructor, and by Stop after it joined the handler"
+
+// registryOwner: see registryOwnerDoc.
+func (c *Ctx) registryOwner() {
+	sm := func(f string) *types.Var { return c.field("blockntfns", "SubscriptionManager", f) }
+	smM := func(m string) *types.Func { return c.method("blockntfns", "SubscriptionManager", m) }
+	c.whoMay("access to SubscriptionManager.subscribers", accessOf(sm("subscribers")), []string{fnHandleNew, fnHandleCan, fnNotifyAll, "blockntfns.NewSubscriptionManager", fnSMStop}, 5)
+	c.whoMay("calls of handleNewSubscription/handleCancelSubscription/notifySubscribers", callTo(smM("handleNewSubscription"), smM("handleCancelSubscription"), smM("notifySubscribers")), []string{fnSubHandler}, 3)
+	c.whoMay("go subscriptionHandler", func(in ssa.Instruction) bool {
+		_, isGo := in.(*ssa.Go)
+		return isGo && callTo(smM("subscriptionHandler"))(in)
+	}, []string{"(*blockntfns.SubscriptionManager).Start"}, 1)
+	c.whoMay("calls of subscriptionHandler", callTo(smM("subscriptionHandler")), []string{"(*blockntfns.SubscriptionManager).Start"}, 1)
+	stop := c.fn(fnSMStop)
+	wait := c.method("sync", "WaitGroup", "Wait")
+	mwait := withArg(callTo(wait), 0, fieldAddrOf(sm("wg")))
+	c.mustPrecede(stop, mwait, "m.wg.Wait()", accessOf(sm("subscribers")), "access to m.subscribers", 1)
+	c.mustPrecede(stop, closes(loadsField(sm("quit"))), "close(m.quit)", mwait, "m.wg.Wait()", 1)
+	// Start is once-only
+	st := c.fn("(*blockntfns.SubscriptionManager).Start")
+	add := c.funcObj("sync/atomic", "AddInt32")
+	g := equalIs("atomic.AddInt32(&m.started,1) vs 1", find(st, binops(eqOps, valIsCallTo(add), constIntIs(1))), true)
+	c.guarded(st, g, 1, "go subscriptionHandler", find(st, func(in ssa.Instruction) bool { _, ok := in.(*ssa.Go); return ok }), 1, gDominate)
 }
